@@ -442,5 +442,5 @@ func TestVerif_C15_collation(t *testing.T) {
 		vh.Inconclusive(t, "only %d collations usable (%d favoured)", len(c15Collations), len(c15Favoured))
 	}
 	rec.Set("collations_available", len(c15Collations))
-	vh.Check(t, "collation", 15000, 50000, func(rt *rapid.T) { c15CollCase(rt, rec) })
+	vh.Check(t, "collation", 60000, 150000, func(rt *rapid.T) { c15CollCase(rt, rec) })
 }
